@@ -8,6 +8,7 @@ import (
 	"encoding/json"
 	"fmt"
 	"io"
+	"os"
 	"strings"
 	"sync"
 	"time"
@@ -91,6 +92,17 @@ func runWriter(c *core.Ctx, kind string, workers int, yield bool) {
 	closeFile := true
 	if (kind == "json" || kind == "csv") && c.Rng.Intn(3) == 0 {
 		closeFile = false
+	}
+	if c.Idx%5 == 2 {
+		// the writers at the log level of --debug (the messages go nowhere): what is logged must not
+		// change what is written
+		log.SetOutput(io.Discard)
+		log.SetLevel(log.DebugLevel)
+		c.Count("cases_at_debug_log_level", 1)
+		defer func() {
+			log.SetLevel(log.ErrorLevel)
+			log.SetOutput(os.Stderr)
+		}()
 	}
 	csvAuto := kind == "csv" && c.Idx%3 == 1
 	wrx.CSVAuto = csvAuto
